@@ -21,6 +21,7 @@ type opT struct {
 	PG   cachectl.PGSpec
 	A    []int64 // ids
 	OK   bool
+	F    int64 // bind: 1 bound, 0 Binder.Bind fails, 2 / 3 pre-bind fails with status update ok / failing
 }
 
 func (o opT) enc() []int64 {
@@ -37,7 +38,7 @@ func (o opT) enc() []int64 {
 	case 9, 10, 13:
 		return []int64{o.Code}
 	case 11:
-		return []int64{11, o.A[0], o.A[1], o.A[2], vh.B(o.OK)}
+		return []int64{11, o.A[0], o.A[1], o.A[2], o.F}
 	case 12:
 		return []int64{12, o.A[0], o.A[1], vh.B(o.OK)}
 	}
@@ -108,12 +109,16 @@ func decCase(in []int64) (ops []opT, ok bool) {
 			if o.PG.Queue < 0 {
 				fail = true
 			}
-		case 2, 4, 6, 7, 8:
+		case 2, 4, 6, 7, 8, 14:
 			o.A = []int64{pos()}
 		case 9, 10, 13:
 		case 11:
 			o.A = []int64{pos(), pos(), pos()}
-			o.OK = next() != 0
+			o.F = next()
+			if o.F < 0 || o.F > 3 {
+				fail = true
+			}
+			o.OK = o.F == 1
 		case 12:
 			o.A = []int64{pos(), pos()}
 			o.OK = next() != 0
@@ -151,9 +156,11 @@ func apply(c *cachectl.Ctl, o opT) int64 {
 	case 10:
 		c.DrainResync()
 	case 11:
-		return c.Bind(o.A[0], o.A[1], o.A[2], o.OK)
+		return c.Bind(o.A[0], o.A[1], o.A[2], o.F)
 	case 12:
 		return c.Evict(o.A[0], o.A[1], o.OK)
+	case 14:
+		c.ApiGone(o.A[0])
 	}
 	return 0
 }
@@ -252,6 +259,8 @@ func quiescent(ops []opT) bool {
 			if o.OK {
 				pending[o.A[1]] = true
 			}
+		case 14:
+			pending[o.A[0]] = true // the delete notification is still owed
 		case 1:
 			delete(pending, o.Pod.ID)
 		case 2:
